@@ -27,6 +27,7 @@ class G:
         self.p_call = kw.get("p_call", 0.12)
         self.p_loop = kw.get("p_loop", 0.2)
         self.p_break = kw.get("p_break", 0.5)
+        self.p_break2 = kw.get("p_break2", 0.15)
         self.p_segno = kw.get("p_segno", 0.06)
         self.durs = kw.get("durs", [1, 2, 3, 6, 12, 24, 48, 96, 127, 128, 129, 200])
         self.max_items = kw.get("max_items", 7)
@@ -81,6 +82,12 @@ class G:
                     cuts.append(i + 1)
             k = self.rng.choice(cuts)
             body = body[:k] + [self.ev("LOOP_BREAK")] + body[k:]
+            if self.rng.random() < self.p_break2:
+                # a second break in the same loop (never taken: the loop is left at the first one)
+                k2 = self.rng.choice(cuts)
+                if k2 > k:
+                    k2 += 1
+                body = body[:k2] + [self.ev("LOOP_BREAK")] + body[k2:]
         c = self.rng.choice(self.counts)
         if c < 0 and not self.allow_neg:
             c = 2
